@@ -224,6 +224,15 @@ func runC10(c *Ctx) {
 				continue
 			}
 			k := c.U.RelName(fn) + "|" + f.String()
+			if f.String() == "(*os.File).Close" && len(call.Common().Args) == 1 {
+				// closing a handle that was opened read-only (os.Open) changes nothing on disk,
+				// wherever it is written: deferred closure or explicit call
+				if ex, isEx := call.Common().Args[0].(*ssa.Extract); isEx && ex.Index == 0 {
+					if oc, isCall := ex.Tuple.(*ssa.Call); isCall && oc.Call.StaticCallee() != nil && oc.Call.StaticCallee().String() == "os.Open" {
+						k = c.U.RelName(ir.TopLevel(fn)) + "$1|" + f.String()
+					}
+				}
+			}
 			if seen[k] {
 				r.Violation("C10.4", "fs-call-twice:"+k, c.pos(call), fmt.Sprintf("%s calls %s more than once: only one such call site was confirmed (a second file would be touched)", c.U.RelName(fn), f.String()))
 				continue
